@@ -82,6 +82,26 @@ DESC = {
     "C18d": ("terminal event hoisted to module level with its state in a module dict, rewound only on success", "pathline request after one that raised"),
     "C19d": ("fabric letter resolved with `'ABCDE'.index(...)`", "multi-letter or empty fabric string ('AB', '', 'BC')"),
     "C20d": ("axial exponential kernel as 2 exp(-f) cosh(f c)", "n/sigma^2 above ~354 (overflow)"),
+    "C01e": ("start state passed through `apply_gbs` in place when a grain is below the threshold: rewrites the stored snapshot", "chi > 0 and a grain below chi/n at the start of an update"),
+    "C02e": ("whole-number exponent fast path `ratio * ratio**(n-1)` (drops the modulus)", "olivine, n exactly 2.0 or 4.0"),
+    "C03e": ("no-slip early returns give the bare vorticity matrix", "no-slip grain with non-identity orientation in a flow with vorticity"),
+    "C04e": ("(100)[001] slip invariant symmetrised with a wrong index pair (not a full contraction)", "olivine C in a rotated frame"),
+    "C05e": ("dimensional strain rate passed to the kernel (only the velocity gradient is scaled)", "enstatite at geological strain rates (absolute 1e-15 threshold)"),
+    "C06e": ("`np.isclose(time_start, time_end)` early return without integrating", "interval short relative to its absolute time (t ~ 2e5, dt = 1)"),
+    "C07e": ("`get_regime(t, x) or self.regime`", "callback announcing min_viscosity (ordinal 0 is falsy)"),
+    "C08e": ("fractions indexed by phase ordinal when their number equals the number of phases", "(enstatite, olivine) order with unequal fractions"),
+    "C09e": ("`apply_gbs` receives `params['number_of_grains']` instead of the mineral's own grain count", "mineral built with another n_grains than the parameter set"),
+    "C10e": ("new `rotate_voigt` kernel that only uses the orthorhombic entries of the stiffness", "custom non-orthorhombic stiffness (monoclinic pyroxene, tilted olivine)"),
+    "C11e": ("`voigt_vector_to_matrix` as a loop that writes C46 into the lower triangle", "C46 != 0 (monoclinic with x2 unique, triclinic)"),
+    "C12e": ("vectorised nearest-axis pairing with `argmax` over the wrong axis", "contractions that rank the axes in cyclically shifted orders"),
+    "C13e": ("`finite_strain` fast path `eigh(F)` for symmetric F", "symmetric indefinite F (stretch composed with a half-turn); shear below 1e-8"),
+    "C14e": ("theoretical density cached by the bytes of the bin edges", "two lattice systems with equal theta_max in one process"),
+    "C15e": ("zero-volume grains sliced off the sorted volumes but not off the sorted orientations", "a grain with volume exactly 0"),
+    "C16e": ("`_yaml_scalar` skips the dumper for identifier-like words", "YAML 1.1 keywords (no, null, on, ...) as fill or missing marker"),
+    "C17e": ("cache of open NPZ archives, invalidated only by whole-file saves", "load, then save under a postfix, then load again"),
+    "C18e": ("corner-flow gradient written in the reference frame and gathered with the permutation instead of its inverse", "axis pairs (Y,X) and (Z,Y)"),
+    "C19e": ("timestep check `isinstance(...) and timestep > 0` rejects the NaN default", "pathline mode without `timestep`"),
+    "C20e": ("|cos| moved from `point_density` into the kernels, except `schmidt_count`", "schmidt kernel, axial data with sign flips"),
 }
 rows = []
 for seed in sorted(os.listdir(os.path.join(VERIF, "seeded"))):
